@@ -23,7 +23,7 @@ func init() {
 				"!developmentMode, storing the template just returned by the loader path under the path that was looked up; (C16.nocache) the cache flag is threaded unchanged " +
 				"(every call passes its own flag parameter inside the parse cycle; Set.Parse passes constant false); (C16.ext) the extension list is only ever ranged over " +
 				"(forward), each candidate is <path>+<extension>, the first hit returns, and Open/parse receive the string that Exists accepted; (C16.errs) errors of Open, ReadAll, " +
-				"parse and the lookup helpers are returned, never dropped or replaced by nil.",
+				"parse and the lookup helpers are returned, never dropped or replaced by nil. (C16.put, continued) the key passed to Cache.Put is one a later lookup of the same name tries (the stored template's Name, or the form of a Cache.Get key). (C16.ext, continued) every Loader.Exists / Cache.Get of the Set lies inside a loop over the configured extensions.",
 			NotDecided:  "what custom Cache/Loader implementations do; identity of templates requested under different spellings of one file (keys are requested paths); atomicity under concurrency (C11); the default extension list.",
 			Assumptions: []string{"a Cache returns what was Put under the same key (contract of the Cache interface)"},
 			Trusted:     commonTrusted,
@@ -40,7 +40,7 @@ func init() {
 			{Name: "read error swallowed", File: "set.go", Old: "\tcontent, err := ioutil.ReadAll(f)\n\tif err != nil {\n\t\treturn nil, err\n\t}", New: "\tcontent, err := ioutil.ReadAll(f)\n\tif err != nil {\n\t\treturn nil, nil\n\t}", Rule: "C16.errs"},
 			{Name: "extensions tried in reverse order", File: "set.go", Old: "\tfor _, extension := range s.extensions {\n\t\tcanonicalPath := templatePath + extension\n\t\tif found := s.loader.Exists(canonicalPath); found {", New: "\tfor i := len(s.extensions) - 1; i >= 0; i-- {\n\t\textension := s.extensions[i]\n\t\tcanonicalPath := templatePath + extension\n\t\tif found := s.loader.Exists(canonicalPath); found {", Rule: "C16.ext"},
 			{Name: "open a different path than the one that exists", File: "set.go", Old: "return s.loadFromFile(canonicalPath, cacheAfterParsing)", New: "return s.loadFromFile(templatePath, cacheAfterParsing)", Rule: "C16.ext"},
-			{Name: "cache under the canonical path of another variable", File: "set.go", Old: "s.cache.Put(templatePath, t)", New: "s.cache.Put(templatePath+\".jet\", t)", Rule: "C16.put"},
+			{Name: "cache under the canonical path of another variable", File: "set.go", Old: "s.cache.Put(t.Name, t)", New: "s.cache.Put(t.Name+\".jet\", t)", Rule: "C16.put"},
 			{Name: "a second Put on the error path", File: "set.go", Old: "\treturn t, err\n}\n\nfunc (s *Set) getTemplateFromCache", New: "\tif err != nil {\n\t\ts.cache.Put(templatePath, nil)\n\t}\n\treturn t, err\n}\n\nfunc (s *Set) getTemplateFromCache", Rule: "C16.put"},
 			{Name: "loader fault on the first existing candidate falls through to the next extension (agent seed C16/3)", File: "set.go", Old: "\t\t\treturn s.loadFromFile(canonicalPath, cacheAfterParsing)", New: "\t\t\tt, err = s.loadFromFile(canonicalPath, cacheAfterParsing)\n\t\t\tif t == nil && err != nil {\n\t\t\t\tcontinue\n\t\t\t}\n\t\t\treturn t, err", Rule: "C16.ext"},
 			{Name: "equivalent: hit branch assigns the results and returns them", File: "set.go", Old: "\t\t\treturn s.loadFromFile(canonicalPath, cacheAfterParsing)", New: "\t\t\tt, err = s.loadFromFile(canonicalPath, cacheAfterParsing)\n\t\t\treturn t, err", Rule: "-"},
